@@ -29,6 +29,45 @@ def vdata(key, salt, rank):
     return np.array([[v, 0.5 * w, 0.25 * v], [2 * w, -v, 0.5 * w]])
 
 
+def find_live_klist(frame):
+    """run()'s live list of K-point objects, found by type (robust against renamed locals / a loop moved into a
+    helper): the local called K_list of run() if there is one, else the longest list of KpointBZ objects among
+    the locals of the run_grid.py frames on the stack; None if there is no such list"""
+    from wannierberri.grid.Kpoint import KpointBZ
+    best = None
+    f = frame
+    while f is not None:
+        if f.f_code.co_filename.endswith("run_grid.py"):
+            for name, v in list(f.f_locals.items()):
+                if isinstance(v, list) and len(v) > 0 and all(isinstance(x, KpointBZ) for x in v):
+                    if name == "K_list" and f.f_code.co_name == "run":
+                        return v
+                    if best is None or len(v) > len(best):
+                        best = v
+        f = f.f_back
+    return best
+
+
+def snapshots_from_files(klist_dir):
+    """{iteration: [(key, factor, True)]} rebuilt from the restart files of an allow_restart run (fallback when the
+    live K-list cannot be located on the stack)"""
+    import glob
+    import pickle
+    Ks = []
+    with open(os.path.join(klist_dir, "K_list.pickle"), "rb") as fr:
+        while True:
+            try:
+                Ks += pickle.load(fr)
+            except EOFError:
+                break
+    out = {}
+    for f in glob.glob(os.path.join(klist_dir, "factors_iter-*.npy")):
+        it = int(f.split("-")[-1].split(".")[0])
+        fac = np.load(f)
+        out[it] = [(kkey(K), float(x), True) for K, x in zip(Ks, fac)]
+    return out
+
+
 class SteerResult(EnergyResult):
     def __init__(self, *a, prio=0.0, **k):
         super().__init__(*a, **k)
@@ -56,13 +95,7 @@ class SteerResult(EnergyResult):
 
     def savedata(self, name, prefix, suffix, i_iter):
         super().savedata(name, prefix, suffix, i_iter)
-        f = sys._getframe(1)
-        K_list = None
-        while f is not None:
-            if f.f_code.co_name == "run" and f.f_code.co_filename.endswith("run_grid.py"):
-                K_list = f.f_locals.get("K_list")
-                break
-            f = f.f_back
+        K_list = find_live_klist(sys._getframe(1))
         snap = None
         if K_list is not None:
             snap = [(kkey(K), float(K.factor), bool(K.was_evaluated_flag)) for K in K_list]
